@@ -5,29 +5,45 @@ CFG = {
     "required_theorems": ["RpmVerif.C19.caps_iff", "RpmVerif.C19.caps_accept_of_wellFormed", "RpmVerif.C19.caps_admissible_of_accept",
                           "RpmVerif.C19.caps_accepts_iff_code_reading", "RpmVerif.C19.caps_meets_demand", "RpmVerif.C19.caps_total",
                           "RpmVerif.C19.caps_total_entry_points", "RpmVerif.C19.caps_reject_is_error", "RpmVerif.C19.caps_new_ok_iff",
-                          "RpmVerif.C19.caps_verbatim", "RpmVerif.C19.dontcare_where_silent"],
+                          "RpmVerif.C19.caps_verbatim", "RpmVerif.C19.dontcare_where_silent",
+                          "RpmVerif.C19.caps_nonascii_name_rejected", "RpmVerif.C19.caps_nonascii_rejected",
+                          "RpmVerif.C19.old_unicode_upper_witness"],
     "trivial_branches": ["reject-empty"],
     "rule": "complete enumeration of all strings of up to 5 tokens (quick) / up to 6 tokens plus all 7-token strings over a 9-token "
-            "sub-alphabet (thorough) over {cap_chown, cap_kill, all, cap_bogus, ',', '=', '+', '-', e, i, p, x, ' '}, each through "
-            "FileCaps::from_str, FileCaps::new, Display, validate_caps_text and FileOptions::caps; plus 1e5 (quick) / 1e6 (thorough) seeded "
-            "longer texts (grammar-shaped clauses over all 41 capability names in lower/upper/mixed case, every ASCII whitespace kind, "
-            "injected defects, some non-ASCII) and a few hundred texts carried through PackageBuilder::build and read back from the file entry; "
+            "sub-alphabet (thorough) over {cap_chown, cap_kill, all, cap_bogus, ',', '=', '+', '-', e, i, p, x, ' '}; complete enumeration of "
+            "all strings of up to 3 (quick) / 4 (thorough) tokens over that alphabet enlarged by 11 non-ASCII tokens {cap_k\u0131ll, "
+            "cap_\u017fetuid, cap_\u212aill, cap_f\u00dfetid, cap_net_broadca\ufb06, U+00A0, U+3000, U+0085, \u00e9, U+FF1D, U+200B} and of "
+            "4 (quick) / 5 and 6 (thorough) tokens over a 12-token mixed sub-alphabet; each through FileCaps::from_str, FileCaps::new, Display, "
+            "validate_caps_text and FileOptions::caps; plus 1e5 (quick) / 1e6 (thorough) seeded longer texts (grammar-shaped clauses over all 41 "
+            "capability names in lower/upper/mixed case, every ASCII and every non-ASCII White_Space code point, blanks that are not "
+            "White_Space, non-ASCII look-alikes and case-mapping relatives injected into names, 'all', operators, flags; injected defects) and "
+            "a few hundred texts carried through PackageBuilder::build and read back from the file entry; "
             "a case is non-trivial when the text is not empty/all-whitespace; distinct = distinct request lines",
     "exhaustive": True,
     "shards": {"quick": 4, "thorough": 16},
     "trusted_base": ["Spec/FileCaps.lean: my formalisation of the property sentence as a grammar with two explicit readings (strict / lenient) "
-                     "and the don't-care region between them",
+                     "and the don't-care region between them; names, 'all', operators, flags are the ASCII characters (a name with a non-ASCII "
+                     "code point is unknown)",
+                     "the Unicode White_Space table (Rust char::is_whitespace), transcribed by hand twice: as ranges in Model/FileCaps.lean "
+                     "(isWs) and as a list in Spec/FileCaps.lean (isUniSpace); proved equal (isSpace_eq_isWs), exercised against the real "
+                     "code on every listed code point by the seeded texts",
                      "CAPS table scraped from src/rpm/filecaps.rs on every run (tools/gen/caps_table.py)"],
     "assumptions": COMMON_ASSUME + [
-        "ASCII input: non-ASCII text is outside the model and the grammar (Unicode to_uppercase / Unicode whitespace); for it only 'no panic' and "
-        "'verbatim when accepted' are checked on the real code",
-        "Rust std semantics of str::trim, split_whitespace, find, split, to_uppercase, eq_ignore_ascii_case on ASCII as transcribed in Model/FileCaps.lean",
+        "a Rust String is the list of its Unicode scalar values; the driver decodes the request's UTF-8 into code points (the harness only "
+        "sends valid UTF-8)",
+        "Rust std semantics of str::trim, split_whitespace (char::is_whitespace = White_Space), find / byte slicing at an ASCII match, split, "
+        "to_ascii_uppercase, eq_ignore_ascii_case as transcribed in Model/FileCaps.lean",
     ],
-    "level_text": "Theorems for all strings of any length: the model of validate_caps_text accepts exactly the grammar of the property under one reading "
-                  "of its two ambiguous points (caps_accepts_iff_code_reading), hence accepts every text that is well formed under all readings and only texts "
-                  "well formed under some reading (caps_iff outside the don't-care set); it never panics (the debug_assert in validate_suffix is unreachable), "
-                  "rejected text is an error, accepted text is stored and displayed verbatim by FileCaps::new / from_str / FileOptions::caps. The model is tied "
-                  "to the code by the regenerated CAPS table and a complete small-scope differential run over the property's token alphabet plus seeded long texts.",
+    "level_text": "Theorems for all strings of Unicode code points of any length (no ASCII restriction): the model of validate_caps_text accepts "
+                  "exactly the grammar of the property under one reading of its ambiguous points (caps_accepts_iff_code_reading), hence accepts every "
+                  "text that is well formed under all readings and only texts well formed under some reading (caps_iff outside the don't-care set); "
+                  "any text with a non-ASCII code point that is not White_Space - in particular a clause with a non-ASCII code point in its name list - "
+                  "is rejected and must be rejected (caps_nonascii_rejected, caps_nonascii_name_rejected), while the pre-e20037b validator "
+                  "(Unicode to_uppercase) accepted \"cap_k\u0131ll=ep\" (old_unicode_upper_witness); it never panics (the debug_assert in validate_suffix is "
+                  "unreachable), rejected text is an error, accepted text is stored and displayed verbatim by FileCaps::new / from_str / "
+                  "FileOptions::caps. The model is tied to the code by the regenerated CAPS table and a complete small-scope differential run over "
+                  "the property's token alphabet enlarged by non-ASCII tokens, plus seeded long texts with injected non-ASCII characters.",
     "level_note": "Trusted: Lean kernel; the grammar in Spec/FileCaps.lean as a reading of the English sentence (don't-care: flagless last group, 'all' inside a "
-                  "comma list, U+000B as whitespace, non-ASCII); fidelity of the hand model as exercised by the correspondence.",
+                  "comma list, U+000B and the non-ASCII White_Space code points as whitespace); the hand-transcribed White_Space table; fidelity of the hand "
+                  "model as exercised by the correspondence.",
 }
